@@ -102,6 +102,15 @@ def _pieces(evs, i, wall_name):
                 if b2 == base:
                     encs.append((j, x, o2))
     if not encs:
+        mv = re.match(r"^&([A-Za-z_]\w*)$", APE.vstr(ptr))
+        if mv and ln == ("c", 4):
+            # the four bytes of a local (a by-value parameter of a helper, a temporary): what it holds
+            held = None
+            for x in evs[:i]:
+                if x.kind in ("store", "bind") and x.a == mv.group(1):
+                    held = x.b
+            if held is not None:
+                return [("rawval", held, ("c", 4))]
         return [("raw", ptr, ln)]
     # the buffer is what the codecs put into it: contiguous from the address written, lengths adding up
     run = off
@@ -165,10 +174,28 @@ def _parse(p, wall_name, trailer_size):
                 objs &= holders(crc[1], "crc")
                 okcrc = bool(objs)
                 fr.crc_mode = "encoded"
+            elif crc[0] == "rawval":
+                # the bytes of a local holding the block's checksum: the crc field's value, or the checksum computed over
+                # exactly this frame's payload (byte order of what the local holds: C09.R2 at its definition)
+                hc = holders(crc[1], "crc")
+                if hc:
+                    objs &= hc
+                    okcrc = bool(objs)
+                else:
+                    cvs = APE.vstr(crc[1])
+                    mw = re.match(r"^__uint32_identity\((.*)\)(?:[#@]\d+)?$", cvs)      # htole32 on a little-endian host
+                    if mw:
+                        cvs = mw.group(1)
+                    okcrc = any(x.kind == "call" and x.a == "mtbl_crc32c" and APE.vstr(x.c) == cvs and len(x.b) == 2 and dat[0] == "raw" and
+                                x.b[0] == dat[1] and x.b[1] == dat[2] for x in evs[:i])
+                    fr.crc_local = okcrc
+                fr.crc_mode = "raw"
             okdat = dat[0] == "raw" and dat[2] == pc[1]
-            if okdat:
+            if okdat and not getattr(fr, "crc_local", False):
                 objs &= holders(dat[1], "data")
                 okdat = bool(objs)
+            elif okdat:
+                objs = objs or {"(block)"}       # a frame assembled from locals: length, checksum and payload tied by value
             mL = bool(objs)
             fr.obj = sorted(objs)[0] if objs else None
             fr.ok = bool(mL) and okcrc and okdat
